@@ -1,16 +1,64 @@
 (* C11 - Announce before send: no object packet precedes a complete FDT listing it. *)
-From FluteV Require Import Model.SenderCtl Spec.SenderSpec Proofs.SenderProofs.
+From FluteV Require Import Model.SenderCtl Spec.SenderSpec Proofs.SenderProofs Proofs.C11Full.
 Open Scope N_scope.
 
-(* The full statement over every operation history (premise: publishing never fails, D27):
-   the trace predicate P_C11 - every object packet is preceded by all packets of one FDT
-   instance listing its TOI, and no object packet interrupts an instance - holds of every run
-   of the model.  Evaluated on the implementation's trace on every run; as a theorem it is
-   proved so far through the three mechanisms below (partial). *)
+(* The statement over every operation history: the trace predicate P_C11 - every object packet is
+   preceded by all packets of one FDT instance listing its TOI, and no object packet interrupts an
+   instance - holds of every run of the model.  Evaluated on the implementation's trace on every run.
+
+   As first written (no condition on the operations) the statement is FALSE of the model, for a
+   reason that is an artefact of the model's vocabulary, not of the implementation: the model's
+   object record has a field o_fdtid (set by Fdt::publish for FDT instances) and OpAdd accepts any
+   record; an added object carrying Some id is emitted as "FDT packets" and confuses the monitor. *)
 Definition C11_announce_before_send_full : Prop :=
   forall fdt_npk divf ops full dur car sid queues,
     (forall id, (1 <= fdt_npk id)%nat) ->
     P_C11 (map fst (model_trace fdt_npk (fun _ => true) divf (init_st full dur car sid queues) ops)) = true.
+
+Example C11_announce_before_send_full_refuted :
+  let odA := mk_odesc 1 0 1 1 1 CNone TNone false (Some 7) [] in   (* a "user object" with an FDT id *)
+  let odB := mk_odesc 2 0 1 1 1 CNone TNone false None [] in
+  let ops := [OpAdd odA None true; OpAdd odB None true; OpRead 0; OpRead 0; OpRead 0; OpRead 0] in
+  P_C11 (map fst (model_trace (fun _ => 2%nat) (fun _ => true) (fun d n => Some (d / Z.of_N n)%Z)
+                    (init_st true 3600000000000 (CDelay 1000000000) 1 [(0, 1%nat)]) ops)) = false.
+Proof. vm_compute. reflexivity. Qed.
+
+(* The theorem: for every history whose accepted add_object operations describe user objects
+   (user_opb: o_fdtid = None - the only descriptions the API can produce), in both publish modes,
+   when publishing never fails (D27). *)
+Theorem C11_announce_before_send :
+  forall fdt_npk divf ops full dur car sid queues,
+    (forall id, (1 <= fdt_npk id)%nat) ->
+    forallb user_opb ops = true ->
+    P_C11 (map fst (model_trace fdt_npk (fun _ => true) divf (init_st full dur car sid queues) ops)) = true.
+Proof. exact c11_announce_before_send. Qed.
+Print Assumptions C11_announce_before_send.
+
+(* FullFDT mode: publish may fail at any time (arbitrary oracle fdt_ok); a failing publish never
+   leads to an unannounced object *)
+Theorem C11_announce_before_send_failing_publish_fullfdt :
+  forall fdt_npk fdt_ok divf ops dur car sid queues,
+    (forall id, (1 <= fdt_npk id)%nat) ->
+    forallb user_opb ops = true ->
+    P_C11 (map fst (model_trace fdt_npk fdt_ok divf (init_st true dur car sid queues) ops)) = true.
+Proof. exact c11_announce_before_send_fullfdt_any_publish. Qed.
+Print Assumptions C11_announce_before_send_failing_publish_fullfdt.
+
+(* ObjectsBeingTransferred mode: get_next_file_transfer publishes right after starting the
+   transfer and drops the error (fdt.rs: self.publish(now).ok()); when that publish fails the
+   object is sent although no FDT instance lists it.  Here instance 1 (published by the first read,
+   listing nothing) succeeds, instance 2 (the one that would list TOI 2) fails:
+   trace = [add ok; RFdt 1 (complete, listing []); RObj 2 !!; nothing]. *)
+Example C11_failing_publish_objects_mode_refuted :
+  let odB := mk_odesc 2 0 1 1 1 CNone TNone false None [] in
+  let ops := [OpAdd odB None true; OpRead 0; OpRead 0; OpRead 0] in
+  forallb user_opb ops = true /\
+  fst (run_ops (fun _ => 1%nat) (fun id => id =? 1) (fun d n => Some (d / Z.of_N n)%Z)
+         (init_st false 3600000000000 (CDelay 1000000000) 1 [(0, 1%nat)]) ops)
+  = [OutAdd true; OutRead (RFdt 1 false); OutRead (RObj 2 true); OutRead RNothing] /\
+  P_C11 (map fst (model_trace (fun _ => 1%nat) (fun id => id =? 1) (fun d n => Some (d / Z.of_N n)%Z)
+                    (init_st false 3600000000000 (CDelay 1000000000) 1 [(0, 1%nat)]) ops)) = false.
+Proof. vm_compute. repeat split; reflexivity. Qed.
 
 (* (1) a file session never emits an object packet while an FDT instance is queued *)
 Theorem C11_file_session_blocked_by_pending_fdt : forall fdt_npk fdt_ok divf fuel ss now s o ss' s',
